@@ -76,6 +76,20 @@ def main(ctx):
     scheds = scheds + capscheds
     kinds.update(capkinds)
 
+    # 2a'': the loop pre-empted INSIDE its critical section (head re-validated, about to ask the holder) while goroutines that
+    # do not take the tracker mutex run: item arrivals (RemovePull), registrations of immediate pulls
+    rk = vlib.tlc(ctx, "MC_Tracker.tla", "MC_Tracker_crit.cfg", workers=12, timeout=1800, extra=["-seed", str(ctx.seed)])
+    if not rk.ok:
+        raise vlib.CheckError("design-level Tracker critical-section model violates %s (model-only, not a verdict):\n%s"
+                              % (rk.invariant, (rk.error or "")[:1500]))
+    critscheds, critkinds = pick_schedules(sorted(rk.exports, key=lambda e: json.dumps(e, sort_keys=True)), rnd, 12 if quick else 300)
+    ctx.log("critical-section model: %d generated / %d distinct; %d kinds exported; replaying %d" % (rk.generated, rk.distinct, len(critkinds), len(critscheds)))
+    for k in ("crit-arrived-more-drop", "crit-otherarrived-more-emit", "crit-announced-more-move"):
+        if not critkinds.get(k):
+            raise vlib.CheckError("critical-section model never exercised '%s' (vacuous bounds)" % k)
+    scheds = scheds + critscheds
+    kinds.update(critkinds)
+
     # 2b: random walks of a larger instance
     nwalk = 150 if quick else 3000
     rs = vlib.tlc(ctx, "MC_Tracker.tla", "MC_Tracker_sim.cfg", workers=1, timeout=1800,
@@ -136,7 +150,7 @@ def main(ctx):
         selftest_reject(ctx, "Trace_Tracker.tla", "Trace_Tracker.cfg", trace, mutate, n_lines=3000)
 
     cov = {
-        "states": r.distinct + rc.distinct, "transitions": r.generated + rc.generated,
+        "states": r.distinct + rc.distinct + rk.distinct, "transitions": r.generated + rc.generated + rk.generated,
         "traces_validated_against_impl": len(scheds) + len(walks),
         "samples": [scheds[0]["sched"][:20], walks[0]["sched"][:45]],
         "exported_by_kind": kinds,
@@ -144,7 +158,8 @@ def main(ctx):
         "model_cfg": cfg,
         "exhaustive": False,
         "rule": "bounded Tracker model explored exhaustively (2 peers x 2 hashes, delay 2, horizon 4, <= 6 announcements, one pre-empted announcer) + cap model "
-                "(4 peers x 1 hash, <= 3 announcers pre-empted between their atomic ticket and the cap comparison, horizon 2); "
+                "(4 peers x 1 hash, <= 3 announcers pre-empted between their atomic ticket and the cap comparison, horizon 2) + critical-section "
+                "model (3 peers x 2 hashes, the loop pre-empted between its head re-validation and its holder query, horizon 3); "
                 "%d schedules per kind of loop transition + %d random walks (5 peers x 3 hashes, depth 45) replayed exactly "
                 "on the real tracker under a virtual clock" % (per_kind, len(walks)),
     }
